@@ -262,7 +262,11 @@ def mpi_variant(rng, s, info, worlds=(2, 3, 5, 8)):
             out.append(['ops', [(['mpi', op[1], P, perm] if op[0] == 'run' else op) for op in e[1]]])
         else:
             out.append(e)
-    return out, ['mpi_shim', 'world_%d' % P]
+    cl = ['mpi_shim', 'world_%d' % P]
+    if rng.random() < 0.4:
+        # the integration runs on a communicator that is a proper part of MPI_COMM_WORLD (its rank 0 is not world rank 0, the world is larger)
+        out.insert(len(out) - 1, ['subcomm', rng.choice([1, 2, 5])]); cl.append('sub_communicator')
+    return out, cl
 
 def big_run(rng, fmt, kind, *, dims=1, bins=4, channels=2, iters=2, calls=(6,), ndists=0, dist_bins=(3, 1), ops_fn=None, trace=0):
     """a run whose structure sizes are chosen by the caller (polynomial integrand, default checkpoint, grid map)"""
@@ -1240,7 +1244,11 @@ def gen_C04(c, rng, tier):
                     pre = [rng.choice([3, 6])]
                     ops += [['run', pre], ['reload']]; cl.append('resumed_checkpoint')
                 s0 = small_bins(s0)
-                s = [e for e in s0 if e[0] != 'ops'] + [['ops', ops + [['mpi', calls, P, perm], ['text']]]]
+                sub = []
+                if rng.random() < 0.35:
+                    # the communicator of the integration is a proper part of the world: rank r is world rank r + k, the world is larger
+                    sub = [['subcomm', rng.choice([1, 2, 3, 7])]]; cl.append('sub_communicator')
+                s = [e for e in s0 if e[0] != 'ops'] + sub + [['ops', ops + [['mpi', calls, P, perm], ['text']]]]
                 info = dict(info); info['calls'] = calls; info['world'] = P; info['poly'] = poly; info['pre'] = ops
                 cid = c.add(t, 'run', s, classes=cl + cl2 + ['world_%s' % ('1' if P == 1 else 'small' if P < 8 else 'large'),
                                                          'calls_lt_world' if any(0 < x < P for x in calls) else 'calls_ge_world',
